@@ -266,6 +266,16 @@ def check_hier(h, vals, step, label, world, default_names=True):
     full = call(lambda: list(h.get_parameter_names(include_ids=True)))
     if is_exc(full) or len(full) != n:
         fail(label + '.count_names', 'with_ids', short(full), step)
+    # both options together: the top-level entries of the ID-prefixed list
+    # (top-level parameters carry no ID, so no prefix either)
+    both = call(lambda: list(h.get_parameter_names(
+        exclude_bottom_level=True, include_ids=True)))
+    want_both = [nm for nm, i_ in zip(full, ids) if i_ is None]
+    if is_exc(both) or both != want_both:
+        fail(label + '.ids', 'both_options',
+             'get_parameter_names(exclude_bottom_level=True, '
+             'include_ids=True) gives %s; the entries of the ID-prefixed '
+             'list whose ID is None are %s' % (short(both), want_both), step)
     if default_names and len(set(full)) != len(full):
         dup = sorted(set(x for x in full if full.count(x) > 1))
         fail(label + '.unique_names', 'duplicates',
